@@ -53,6 +53,10 @@ struct Sock {
     owner: engine::Tid,
     sends: u64,
     recv_cap: usize,
+    /// edge-triggered readiness (mio registers with EPOLLET): set by every arrival, cleared when a poll reports it.
+    /// Datagrams a worker leaves in the queue are not reported again until the next arrival.
+    edge: bool,
+    recvs: u64,
 }
 
 struct Pending {
@@ -90,6 +94,8 @@ struct Net {
     net_thread: Option<engine::Tid>,
     /// (server socket index, ordinal of send_to on that socket (1-based)) -> fault
     send_faults: BTreeMap<(usize, u64), SendFault>,
+    /// (server socket index, ordinal of recv_from on that socket (1-based)) -> transient error kind (0: EINTR, 1: ECONNREFUSED, 2: ENOMEM)
+    recv_faults: BTreeMap<(usize, u64), u8>,
     /// probability (per mille) that poll returns spuriously empty
     spurious_poll_permille: u32,
     fired: BTreeMap<&'static str, u64>,
@@ -119,6 +125,9 @@ pub fn fired() -> BTreeMap<&'static str, u64> {
 }
 pub fn set_send_faults(f: BTreeMap<(usize, u64), SendFault>) {
     with(|n| n.send_faults = f);
+}
+pub fn set_recv_faults(f: BTreeMap<(usize, u64), u8>) {
+    with(|n| n.recv_faults = f);
 }
 pub fn set_spurious_poll_permille(p: u32) {
     with(|n| n.spurious_poll_permille = p);
@@ -204,7 +213,13 @@ impl Poll {
         loop {
             let ready = with(|n| {
                 for (id, tok) in &regs {
-                    if !n.socks[*id].queue.is_empty() {
+                    // edge-triggered, as mio on epoll: only arrivals since the last report count (an arrival the
+                    // worker has already read in its drain loop still wakes it once more, as in the kernel)
+                    if n.socks[*id].edge {
+                        n.socks[*id].edge = false;
+                        if n.socks[*id].queue.is_empty() {
+                            *n.fired.entry("poll-edge-already-drained").or_insert(0) += 1;
+                        }
                         events.v.push(Event { token: *tok });
                     }
                 }
@@ -267,6 +282,8 @@ impl UdpSocket {
             n.socks.push(Sock {
                 queue: VecDeque::new(),
                 waiter: None,
+                edge: false,
+                recvs: 0,
                 v6,
                 only_v6,
                 server: true,
@@ -284,6 +301,24 @@ impl UdpSocket {
     pub fn recv_from(&self, buf: &mut [u8]) -> io::Result<(usize, SocketAddr)> {
         crate::fault::seam_point("recv");
         let me = engine::my_tid();
+        let injected = with(|n| {
+            n.socks[self.id].recvs += 1;
+            let k = n.socks[self.id].recvs;
+            let f = n.recv_faults.remove(&(self.id, k));
+            if f.is_some() {
+                *n.fired.entry("recv-transient-error").or_insert(0) += 1;
+            }
+            f
+        });
+        if let Some(kind) = injected {
+            // a transient error: nothing is consumed, the queue is as it was
+            engine::log("udp-recv-error", self.id as u64, kind as u64);
+            return Err(match kind {
+                0 => io::ErrorKind::Interrupted.into(),
+                1 => io::ErrorKind::ConnectionRefused.into(),
+                _ => io::Error::from_raw_os_error(libc::ENOMEM),
+            });
+        }
         let r = with(|n| {
             let v6 = n.socks[self.id].v6;
             match n.socks[self.id].queue.pop_front() {
@@ -388,6 +423,8 @@ pub fn client_bind(addr: SocketAddr) -> ClientSocket {
             owner: engine::my_tid(),
             sends: 0,
             recv_cap: 4096,
+            edge: false,
+            recvs: 0,
         });
         let id = n.socks.len() - 1;
         n.clients.insert(addr, id);
@@ -441,6 +478,7 @@ pub fn inject(bytes: Vec<u8>, src: SocketAddr, pick: Pick, delay_ns: u64) -> Opt
         if delay_ns == 0 {
             let len = d.bytes.len();
             n.socks[sock].queue.push_back(d);
+            n.socks[sock].edge = true;
             Some((id, sock, len, n.socks[sock].waiter.take(), None))
         } else {
             n.order += 1;
@@ -491,6 +529,7 @@ pub fn net_thread_main() {
             let bytes = p.d.bytes.clone();
             let w = with(|n| {
                 n.socks[sock].queue.push_back(p.d);
+                n.socks[sock].edge = true;
                 n.socks[sock].waiter.take()
             });
             let seq = engine::log("udp-inject", id, len as u64);
